@@ -35,6 +35,22 @@ def load_known():
     return json.load(open(p)).get("findings", [])
 
 
+
+def replay_any(prop, index, name, ob, seed):
+    """Try every replayer whose key matches `name` (prefix or glob), most specific key first; return the first hit, else the last miss."""
+    last = None
+    keys = [k for k in prop.replayers if name.startswith(k) or fnmatch.fnmatch(name, k)]
+    for k in sorted(keys, key=len, reverse=True):
+        try:
+            r = prop.replayers[k](index, ob, seed)
+        except Exception as e:
+            r = {"found": False, "error": f"{type(e).__name__}: {e}"}
+        last = r
+        if r and r.get("found"):
+            return r
+    return last
+
+
 def main(argv=None):
     ap = argparse.ArgumentParser()
     ap.add_argument("pid")
@@ -92,14 +108,7 @@ def main(argv=None):
         elif r.status != "ok":
             # the code left the verifiable subset / the contract no longer binds: undecided for the deductive check.  The bounded
             # native replay of this unit (labelled bounded) may still exhibit a failing input on the real code.
-            hit = None
-            for prefix, fn in prop.replayers.items():
-                if r.unit.startswith(prefix) or fnmatch.fnmatch(r.unit, prefix):
-                    try:
-                        hit = fn(index, None, seed)
-                    except Exception as e:
-                        hit = {"found": False, "error": f"{type(e).__name__}: {e}"}
-                    break
+            hit = replay_any(prop, index, r.unit, None, seed)
             if hit and hit.get("found"):
                 from .state import Obligation
                 import z3 as _z3
@@ -180,17 +189,9 @@ def main(argv=None):
             if ob.meta.get("prefound"):
                 hit = ob.meta["prefound"]
                 break
-            nn = norm_ob_name(ob.name)
-            for prefix, fn in prop.replayers.items():
-                if nn.startswith(prefix) or fnmatch.fnmatch(nn, prefix):
-                    try:
-                        h = fn(index, ob, seed)
-                    except Exception as e:
-                        h = {"found": False, "error": f"{type(e).__name__}: {e}"}
-                    if h and h.get("found"):
-                        hit = h
-                    break
-            if hit:
+            h = replay_any(prop, index, norm_ob_name(ob.name), ob, seed)
+            if h and h.get("found"):
+                hit = h
                 break
         if hit:
             for ob in obs:
@@ -212,21 +213,15 @@ def main(argv=None):
             continue
         tried_units.add(unit)
         nn = norm_ob_name(ob.name)
-        for prefix, fn in prop.replayers.items():
-            if nn.startswith(prefix) or fnmatch.fnmatch(nn, prefix):
-                try:
-                    hit = fn(index, ob, seed)
-                except Exception as e:
-                    hit = {"found": False, "error": f"{type(e).__name__}: {e}"}
-                if hit and hit.get("found"):
-                    from .state import Obligation
-                    import z3 as _z3
-                    vb = Obligation(f"{unit}#bounded-replay-after-undecided", [], _z3.BoolVal(False), "bounded", None, unit,
-                                    {"detail": f"undecided: {ob.name}", "replay": hit, "note": "obligation undecided deductively; bounded native replay found a failing input"})
-                    vb.verdict, vb.backend, vb.model = "refuted", "bounded-execution", {"witness": hit.get("input")}
-                    vb.meta["prefound"] = hit
-                    violations.append(vb)
-                break
+        hit = replay_any(prop, index, nn, ob, seed)
+        if hit and hit.get("found"):
+            from .state import Obligation
+            import z3 as _z3
+            vb = Obligation(f"{unit}#bounded-replay-after-undecided", [], _z3.BoolVal(False), "bounded", None, unit,
+                            {"detail": f"undecided: {ob.name}", "replay": hit, "note": "obligation undecided deductively; bounded native replay found a failing input"})
+            vb.verdict, vb.backend, vb.model = "refuted", "bounded-execution", {"witness": hit.get("input")}
+            vb.meta["prefound"] = hit
+            violations.append(vb)
 
     # known findings: one line per listed finding that still fails; residual obligations must hold
     seen_known = {}
@@ -253,13 +248,8 @@ def main(argv=None):
             # a bounded stand-in fails on a concrete input it executed on the real code: that input is the replay
             replay = {"found": True, "input": ob.meta["detail"]["input"], "observed": ob.meta["detail"].get("observed"),
                       "how": "bounded execution of the real function on this input"}
-        for prefix, fn in ([] if replay else prop.replayers.items()):
-            if nn.startswith(prefix) or fnmatch.fnmatch(nn, prefix):
-                try:
-                    replay = fn(index, ob, seed)
-                except Exception as e:
-                    replay = {"found": False, "error": f"{type(e).__name__}: {e}"}
-                break
+        if not replay:
+            replay = replay_any(prop, index, nn, ob, seed)
         rec["replay"] = replay
         fname = re.sub(r"[^A-Za-z0-9_.-]+", "_", f"{args.pid}-{nn}")[:150] + ".json"
         path = os.path.join(replay_dir, fname)
